@@ -20,6 +20,27 @@ type rootInfo struct {
 	Prefix   string // leaf name = Prefix + path
 }
 
+// LoopFlow is the value of one loop-header phi along an edge.
+type LoopFlow struct {
+	Phi  string
+	Pred bdd.Node
+	Val  Value
+}
+
+// LoopSummary describes one loop whose body was interpreted once with its
+// header phis replaced by atoms "loop<ID>.<phi>".
+type LoopSummary struct {
+	ID           int
+	Fn           string
+	Header       string
+	EntryPred    bdd.Node
+	BackPred     bdd.Node
+	Init         []LoopFlow // values entering the loop
+	Back         []LoopFlow // values flowing along back edges (functions of the loop atoms)
+	StoreChanged []string   // store locations the body changes (other than through events)
+	headState    *State
+}
+
 // PtrChoice is a pointer selected by a data-dependent index.
 type PtrChoice struct {
 	Conds []bdd.Node
@@ -44,6 +65,19 @@ type Interp struct {
 	// AfterEvent is called after each device event (used to havoc what a
 	// callback may legitimately change).
 	AfterEvent func(in *Interp, st *State, guard bdd.Node)
+
+	// curPred is the path predicate of the block being interpreted.
+	curPred bdd.Node
+	// LoopBodies switches on loop-body summarisation: a loop is entered with
+	// its induction variables replaced by fresh atoms, its body interpreted
+	// once, and the values flowing along the back edge recorded in Loops.
+	LoopBodies bool
+	Loops      []*LoopSummary
+	rangeN     int
+	// Models of external functions: name -> handler.
+	Models map[string]func(in *Interp, args []Value, guard bdd.Node, pos string) (Value, bool)
+	// NoGlobalEvents: do not record reads of package-level variables.
+	NoGlobalEvents bool
 
 	// Assume (with HasAssume) restricts the analysis to the pre-states
 	// satisfying it; results are meaningful on that care set only.
@@ -226,6 +260,13 @@ func (in *Interp) Load(st *State, pv Value, t types.Type, pos token.Pos) Value {
 		if p.Nil == bdd.True {
 			in.undecided(pos, "load through a nil pointer")
 		}
+		if p.Idx != nil {
+			w, _, ok := in.width(t)
+			if !ok {
+				in.undecided(pos, "element of non-integer type")
+			}
+			return in.T.Emit(in.curPred, "slice.get", p.Root, []dom.BV{p.Idx}, w, in.P.Pos(pos))
+		}
 		ri := in.roots[p.Root]
 		if ri == nil {
 			in.undecided(pos, "load through pointer with unknown root %q", p.Root)
@@ -278,6 +319,14 @@ func (in *Interp) Store(st *State, pv Value, t types.Type, v Value, g bdd.Node, 
 	case *Ptr:
 		if p.Nil == bdd.True {
 			in.undecided(pos, "store through a nil pointer")
+		}
+		if p.Idx != nil {
+			bv, ok := v.(dom.BV)
+			if !ok {
+				in.undecided(pos, "element store of non-integer")
+			}
+			in.T.Emit(in.C.M.And(in.curPred, g), "slice.set", p.Root, []dom.BV{p.Idx, bv}, 0, in.P.Pos(pos))
+			return
 		}
 		ri := in.roots[p.Root]
 		if ri == nil {
@@ -519,6 +568,7 @@ func (in *Interp) call(fn *ssa.Function, args []Value, guard bdd.Node, st *State
 	ins := make(map[*ssa.BasicBlock][]inEdge)
 	ins[order[0]] = []inEdge{{nil, guard, st}}
 	var rets []retRec
+	loopOf := map[*ssa.BasicBlock]*LoopSummary{}
 	top := fn == in.entry && in.depth == 1
 	for bi, b := range order {
 		edges := ins[b]
@@ -533,6 +583,20 @@ func (in *Interp) call(fn *ssa.Function, args []Value, guard bdd.Node, st *State
 			in.undecided(b.Instrs[0].Pos(), "value-domain budget exceeded in %s", fn.String())
 		}
 		pred, cur := in.mergeStates(edges)
+		in.curPred = pred
+		if in.LoopBodies {
+			isHeader := false
+			for _, pb := range b.Preds {
+				if index[pb] >= bi {
+					isHeader = true
+				}
+			}
+			if isHeader {
+				ls := &LoopSummary{ID: len(in.Loops) + 1, Fn: fn.String(), Header: b.Comment, EntryPred: pred, BackPred: bdd.False, headState: cur.Clone()}
+				in.Loops = append(in.Loops, ls)
+				loopOf[b] = ls
+			}
+		}
 		if top {
 			in.TopBlocks = append(in.TopBlocks, b)
 		}
@@ -541,6 +605,30 @@ func (in *Interp) call(fn *ssa.Function, args []Value, guard bdd.Node, st *State
 				return
 			}
 			if index[to] <= bi {
+				if ls := loopOf[to]; ls != nil && in.LoopBodies {
+					// record what flows along the back edge; do not iterate
+					for _, instr := range to.Instrs {
+						phi, ok := instr.(*ssa.Phi)
+						if !ok {
+							break
+						}
+						for pi, pb := range to.Preds {
+							if pb == b {
+								ls.Back = append(ls.Back, LoopFlow{Phi: phi.Comment + "#" + phi.Name(), Pred: p, Val: in.operand(fr, phi.Edges[pi])})
+							}
+						}
+					}
+					ls.BackPred = in.C.M.Or(ls.BackPred, p)
+					for _, k := range s.Keys() {
+						v, _ := s.m[k]
+						if hv, ok := ls.headState.m[k]; !ok || !SameValue(hv, v) {
+							if !strings.HasPrefix(k, "alloc#") {
+								ls.StoreChanged = append(ls.StoreChanged, k)
+							}
+						}
+					}
+					return
+				}
 				in.undecided(b.Instrs[len(b.Instrs)-1].Pos(), "loop (back edge) in %s", fn.String())
 			}
 			ins[to] = append(ins[to], inEdge{b, p, s})
@@ -549,6 +637,30 @@ func (in *Interp) call(fn *ssa.Function, args []Value, guard bdd.Node, st *State
 			in.Instrs++
 			switch x := instr.(type) {
 			case *ssa.Phi:
+				if ls := loopOf[b]; ls != nil {
+					// induction variable: initial value from the entry edges, then a fresh atom
+					var init Value
+					for _, e := range edges {
+						for pi, pb := range b.Preds {
+							if pb == e.from {
+								v := in.operand(fr, x.Edges[pi])
+								if init == nil {
+									init = v
+								} else {
+									init = MuxValue(in.C, e.pred, v, init)
+								}
+							}
+						}
+					}
+					name := x.Comment + "#" + x.Name()
+					ls.Init = append(ls.Init, LoopFlow{Phi: name, Pred: pred, Val: init})
+					if bv, ok := init.(dom.BV); ok {
+						fr.vals[x] = in.C.Atom(fmt.Sprintf("loop%d.%s", ls.ID, name), len(bv))
+					} else {
+						fr.vals[x] = init // must be loop-invariant (checked against Back by the caller)
+					}
+					continue
+				}
 				var acc Value
 				for _, e := range edges {
 					var v Value
@@ -732,6 +844,24 @@ func (in *Interp) exec(fr *frame, instr ssa.Instruction, pred bdd.Node, st *Stat
 		fr.vals[x] = in.slice(fr, x)
 	case *ssa.TypeAssert:
 		iv, ok := in.operand(fr, x.X).(*Iface)
+		if ok && iv.Sym != "" && x.CommaOk {
+			name := iv.Sym + ".(" + types.TypeString(x.AssertedType, func(p *types.Package) string { return p.Name() }) + ")"
+			var v Value
+			switch x.AssertedType.Underlying().(type) {
+			case *types.Map:
+				v = &Map{Sym: name, Nil: in.nilVar(name)}
+			case *types.Slice:
+				v = &Slice{Sym: name, Nil: bdd.False, Len: C.Zext(C.Atom("len("+name+")", in.intWidth()-1), in.intWidth())}
+			default:
+				if w, _, okw := in.width(x.AssertedType); okw {
+					v = C.Atom("Init("+name+")", w)
+				} else {
+					in.undecided(x.Pos(), "type assertion to %s", x.AssertedType)
+				}
+			}
+			fr.vals[x] = &Tuple{Elems: []Value{v, C.Atom("ok("+name+")", 1)}}
+			return
+		}
 		if !ok || iv.Sym != "" || iv.Nil != bdd.False {
 			in.undecided(x.Pos(), "type assertion on a symbolic interface value")
 		}
@@ -770,6 +900,40 @@ func (in *Interp) exec(fr *frame, instr ssa.Instruction, pred bdd.Node, st *Stat
 		fr.vals[x] = &Slice{Root: r, Lo: 0, Len: C.Const(in.intWidth(), n), Nil: bdd.False}
 	case *ssa.Call:
 		fr.vals[x] = in.callInstr(fr, x, pred, st)
+		in.curPred = pred
+	case *ssa.Lookup:
+		fr.vals[x] = in.lookup(fr, x, pred)
+	case *ssa.MapUpdate:
+		m, ok := in.operand(fr, x.Map).(*Map)
+		k, ok2 := in.operand(fr, x.Key).(dom.BV)
+		v, ok3 := in.operand(fr, x.Value).(dom.BV)
+		if !ok || !ok2 || !ok3 || m.Sym == "" {
+			in.undecided(x.Pos(), "map update outside the modelled fragment")
+		}
+		in.T.Emit(pred, "map.set", m.Sym, []dom.BV{k, v}, 0, in.P.Pos(x.Pos()))
+	case *ssa.MakeMap:
+		in.allocN++
+		fr.vals[x] = &Map{Sym: fmt.Sprintf("newmap#%d", in.allocN), Nil: bdd.False}
+	case *ssa.Range:
+		m, ok := in.operand(fr, x.X).(*Map)
+		if !ok {
+			in.undecided(x.Pos(), "range over a non-map")
+		}
+		in.rangeN++
+		fr.vals[x] = &RangeIter{Map: m, ID: in.rangeN}
+	case *ssa.Next:
+		it, ok := in.operand(fr, x.Iter).(*RangeIter)
+		if !ok {
+			in.undecided(x.Pos(), "next on a non-map iterator")
+		}
+		mt := x.Iter.(*ssa.Range).X.Type().Underlying().(*types.Map)
+		kw, _, ok1 := in.width(mt.Key())
+		vw, _, ok2 := in.width(mt.Elem())
+		if !ok1 || !ok2 {
+			in.undecided(x.Pos(), "range over a map of non-integers")
+		}
+		pre := fmt.Sprintf("range#%d(%s)", it.ID, it.Map.Sym)
+		fr.vals[x] = &Tuple{Elems: []Value{C.Atom(pre+".more", 1), C.Atom(pre+".key", kw), C.Atom(pre+".value", vw)}}
 	default:
 		in.undecided(instr.Pos(), "unsupported instruction %T (%s) in %s", instr, instr.String(), fr.fn.String())
 	}
@@ -789,15 +953,21 @@ func (in *Interp) indexAddr(fr *frame, x *ssa.IndexAddr) Value {
 		}
 		return &Ptr{Root: b.Root, Path: elemPath(b.Path, int(k)), Nil: bdd.False}
 	case *Slice:
-		if b.Sym != "" {
-			if !isConst {
-				in.undecided(x.Pos(), "symbolic slice %s indexed by a non-constant", b.Sym)
+		if b.Sym != "" && (!isConst || b.LoV != nil) {
+			idx := in.C.Resize(iv, in.intWidth(), false)
+			if b.LoV != nil {
+				idx = in.C.Add(idx, b.LoV)
+			} else if b.Lo != 0 {
+				idx = in.C.AddK(idx, int64(b.Lo))
 			}
+			return &Ptr{Root: b.Sym, Nil: bdd.False, Idx: idx}
+		}
+		if b.Sym != "" {
 			r := "elems:" + b.Sym
 			if _, ok := in.roots[r]; !ok {
 				in.roots[r] = &rootInfo{Symbolic: true, Prefix: b.Sym}
 			}
-			return &Ptr{Root: r, Path: elemPath("", int(k)), Nil: bdd.False}
+			return &Ptr{Root: r, Path: elemPath("", b.Lo+int(k)), Nil: bdd.False}
 		}
 		if isConst {
 			return &Ptr{Root: b.Root, Path: elemPath(b.Path, b.Lo+int(k)), Nil: bdd.False}
@@ -852,6 +1022,32 @@ func (in *Interp) slice(fr *frame, x *ssa.Slice) Value {
 		if x.Low == nil && x.High == nil {
 			return b
 		}
+		w := in.intWidth()
+		bound := func(v ssa.Value, def dom.BV) dom.BV {
+			if v == nil {
+				return def
+			}
+			bv, ok := in.operand(fr, v).(dom.BV)
+			if !ok {
+				in.undecided(x.Pos(), "slice bound")
+			}
+			return in.C.Resize(bv, w, true)
+		}
+		lo := bound(x.Low, in.C.Const(w, 0))
+		hi := bound(x.High, b.Len)
+		if b.Sym != "" && b.LoV == nil && b.Lo == 0 {
+			if k, isc := lo.IsConst(); isc && k == 0 {
+				return &Slice{Sym: b.Sym, Nil: b.Nil, Len: hi}
+			}
+			return &Slice{Sym: b.Sym, Nil: b.Nil, LoV: lo, Len: in.C.Sub(hi, lo)}
+		}
+		if b.Sym == "" {
+			lk, ok1 := lo.IsConst()
+			hk, ok2 := hi.IsConst()
+			if ok1 && ok2 {
+				return &Slice{Root: b.Root, Path: b.Path, Lo: b.Lo + int(lk), Len: in.C.Const(w, hk-lk), Nil: b.Nil}
+			}
+		}
 	}
 	in.undecided(x.Pos(), "unsupported slice expression on %T", base)
 	return nil
@@ -861,7 +1057,7 @@ func (in *Interp) unop(fr *frame, x *ssa.UnOp, pred bdd.Node, st *State) Value {
 	v := in.operand(fr, x.X)
 	switch x.Op {
 	case token.MUL:
-		if p, ok := v.(*Ptr); ok && strings.HasPrefix(p.Root, "global:") {
+		if p, ok := v.(*Ptr); ok && strings.HasPrefix(p.Root, "global:") && !in.NoGlobalEvents {
 			in.T.Emit(pred, "GlobalRead", p.Root, nil, 0, in.P.Pos(x.Pos()))
 		}
 		return in.Load(st, v, x.Type(), x.Pos())
@@ -1048,6 +1244,19 @@ func (in *Interp) callInstr(fr *frame, x *ssa.Call, pred bdd.Node, st *State) Va
 			switch s := args[0].(type) {
 			case *Slice:
 				return s.Len
+			case *Str:
+				return s.Len
+			}
+		case "delete":
+			m, ok := args[0].(*Map)
+			k, ok2 := args[1].(dom.BV)
+			if ok && ok2 && m.Sym != "" {
+				in.T.Emit(pred, "map.delete", m.Sym, []dom.BV{k}, 0, pos)
+				return nil
+			}
+		case "copy":
+			if v, ok := in.copyBuiltin(args, pred, st, x); ok {
+				return v
 			}
 		}
 		in.undecided(x.Pos(), "unsupported builtin %s", b.Name())
@@ -1069,6 +1278,11 @@ func (in *Interp) callInstr(fr *frame, x *ssa.Call, pred bdd.Node, st *State) Va
 	}
 	name := fn.String()
 	in.Externals[name]++
+	if h, ok := in.Models[name]; ok {
+		if v, handled := h(in, args, pred, pos); handled {
+			return v
+		}
+	}
 	switch name {
 	case "math/bits.OnesCount8", "math/bits.OnesCount16", "math/bits.OnesCount32", "math/bits.OnesCount64", "math/bits.OnesCount":
 		if bv, ok := args[0].(dom.BV); ok {
@@ -1152,5 +1366,112 @@ func (in *Interp) SymbolicValue(t types.Type, prefix string) Value {
 	if w, _, ok := in.width(t); ok {
 		return in.C.Atom("Init("+prefix+")", w)
 	}
+	switch t.Underlying().(type) {
+	case *types.Slice:
+		w := in.intWidth()
+		return &Slice{Sym: prefix, Nil: bdd.False, Len: in.C.Zext(in.C.Atom("len("+prefix+")", w-1), w)}
+	case *types.Map:
+		return &Map{Sym: prefix, Nil: in.nilVar(prefix)}
+	case *types.Interface:
+		return &Iface{Sym: prefix, Nil: in.nilVar(prefix)}
+	}
 	return &Opaque{Why: "symbolic " + prefix}
+}
+
+// Str is a string value: symbolic contents named Sym with a length, or a constant.
+type Str struct {
+	Sym   string
+	Const *string
+	Len   dom.BV
+}
+
+func (in *Interp) lookup(fr *frame, x *ssa.Lookup, pred bdd.Node) Value {
+	m, ok := in.operand(fr, x.X).(*Map)
+	k, ok2 := in.operand(fr, x.Index).(dom.BV)
+	if !ok || !ok2 || m.Sym == "" {
+		in.undecided(x.Pos(), "lookup outside the modelled fragment")
+	}
+	mt := x.X.Type().Underlying().(*types.Map)
+	vw, _, okw := in.width(mt.Elem())
+	if !okw {
+		// set-like map (struct{} values): only the presence bit matters
+		vw = 0
+	}
+	res := in.T.Emit(pred, "map.get", m.Sym, []dom.BV{k}, vw+1, in.P.Pos(x.Pos()))
+	present := dom.BV{res[vw]}
+	var val Value
+	if vw > 0 {
+		val = res.Slice(0, vw)
+	} else {
+		val = in.zero(mt.Elem())
+	}
+	if x.CommaOk {
+		return &Tuple{Elems: []Value{val, present}}
+	}
+	if vw > 0 {
+		return in.C.Mux(present[0], val.(dom.BV), in.C.Const(vw, 0))
+	}
+	return val
+}
+
+// copyBuiltin models copy(dst, src).
+func (in *Interp) copyBuiltin(args []Value, pred bdd.Node, st *State, x *ssa.Call) (Value, bool) {
+	dst, ok1 := args[0].(*Slice)
+	src, ok2 := args[1].(*Slice)
+	if !ok1 || !ok2 {
+		return nil, false
+	}
+	C := in.C
+	w := in.intWidth()
+	n := C.Mux(C.Lt(dst.Len, src.Len, true), dst.Len, src.Len)
+	elemT := x.Call.Args[0].Type().Underlying().(*types.Slice).Elem()
+	ew, _, okw := in.width(elemT)
+	if !okw {
+		return nil, false
+	}
+	// concrete destination window of constant length: element-wise
+	if dst.Sym == "" {
+		dn, isc := dst.Len.IsConst()
+		if !isc || dn > maxArrayLeaves {
+			return nil, false
+		}
+		for i := 0; i < int(dn); i++ {
+			cond := C.Lt(C.Const(w, uint64(i)), src.Len, true)
+			var sv Value
+			switch {
+			case src.Sym != "":
+				r := "elems:" + src.Sym
+				if _, ok := in.roots[r]; !ok {
+					in.roots[r] = &rootInfo{Symbolic: true, Prefix: src.Sym}
+				}
+				if src.LoV != nil {
+					return nil, false
+				}
+				sv = in.loadAt(st, r, in.roots[r], elemPath("", src.Lo+i), elemT)
+			default:
+				sn, isc := src.Len.IsConst()
+				if !isc {
+					return nil, false
+				}
+				if uint64(i) >= sn {
+					continue
+				}
+				sv = in.loadAt(st, src.Root, in.roots[src.Root], elemPath(src.Path, src.Lo+i), elemT)
+			}
+			in.storeAt(st, dst.Root, in.roots[dst.Root], elemPath(dst.Path, dst.Lo+i), elemT, sv, cond, x.Pos())
+		}
+		return n, true
+	}
+	// symbolic destination: one block-copy event (window start, length), source identity in the kind
+	lo := C.Const(w, uint64(dst.Lo))
+	if dst.LoV != nil {
+		lo = dst.LoV
+	}
+	srcID := src.Sym
+	if srcID == "" || src.LoV != nil || src.Lo != 0 {
+		return nil, false
+	}
+	in.T.Emit(pred, "slice.copy<-"+srcID, dst.Sym, []dom.BV{lo, dst.Len, src.Len}, 0, in.P.Pos(x.Pos()))
+	_ = ew
+	return n, true
 }
